@@ -295,7 +295,7 @@ def spec_projection(st):
         return list(f.items())
     for n, f in items(st["circ"]):
         out["circ"][n] = sorted(({"cid": c, "goal": v["goal"], "hops": [h["peer"] for h in v["hops"]], "unv": v["unv"]["peer"],
-                                  "via": v["hops"][0]["peer"] if v["hops"] else v["unv"]["peer"], "act": v["act"] if v["hops"] else 0,
+                                  "via": v["hops"][0]["peer"] if v["hops"] else v["unv"]["peer"], "act": 0,
                                   "closing": v["closing"], "early": v["early"], "ctype": v["ctype"],
                                   "hs": v["hs"]["st"] != "none"} for c, v in items(f)), key=lambda x: x["cid"])
     for n, f in items(st["relay"]):
